@@ -11,11 +11,13 @@ let fnv (l : n list) =
   List.iter (fun x -> h := ((!h lxor (int_of_n x)) * 16777619) land 0xFFFFFFFF) l; !h
 
 let xfer proto script =
-  (* tls_send and (since commit c5b289c) tls13_send clamp at 2^14: run12 / run13 of Tls/Stream.v *)
+  (* tls_send and (since commit c5b289c) tls13_send clamp at 2^14; an endpoint of TLCP / TLS 1.2 refuses to
+     send while received data is pending (shared conn->databuf), TLS 1.3 does not *)
   let clamp, cap = Some max_plain, None in
   let allow_empty = (proto = "tls13") in
+  let refuse = (proto <> "tls13") in
   let base = if proto = "tls13" then 0 else 1 in      (* the Finished records consumed sequence number 0 in TLCP / TLS 1.2 *)
-  let st = [| dir_init; dir_init |] in           (* direction 0 = client->server, 1 = server->client *)
+  let d = ref duplex_init in
   let nw = [| 0; 0 |] in
   let wire = [| []; [] |] in
   let out = Buffer.create 256 in
@@ -24,13 +26,14 @@ let xfer proto script =
   List.iteri (fun idx t ->
     if idx > 0 then Buffer.add_char out ',';
     let side = if t.[1] = 'c' then 0 else 1 in
+    let client = (side = 0) in
     let n = int_of_string (String.sub t 2 (String.length t - 2)) in
     if t.[0] = 'w' then begin
       let k = nw.(side) in nw.(side) <- k + 1;
       let data = List.init n (fun i -> n_of_int (pat side k i)) in
-      match write_all clamp cap allow_empty (nat_of_int n) st.(side) data with
-      | Ok (s', ns) ->
-        st.(side) <- s';
+      match dwrite clamp cap allow_empty refuse !d client data with
+      | Ok (d', ns) ->
+        d := d';
         let ns = List.map int_of_nat ns in
         Buffer.add_string out ("w" ^ String.concat "+" (List.map string_of_int ns));
         wire.(side) <- wire.(side) @ List.map (fun m ->
@@ -38,27 +41,28 @@ let xfer proto script =
       | Err -> Buffer.add_string out "wERR"
       | Fault -> Buffer.add_string out "wFAULT"; dead := true
     end else if t.[0] = 'e' then begin
-      match send1 clamp cap allow_empty st.(side) [] with
-      | Ok (s', m) -> st.(side) <- s';
+      match dsend clamp cap allow_empty refuse !d client [] with
+      | Ok (d', m) -> d := d';
         Buffer.add_string out (Printf.sprintf "e%d" (int_of_nat m));
         wire.(side) <- wire.(side) @ [5 + 17]
       | Err -> Buffer.add_string out "eERR"
       | Fault -> Buffer.add_string out "eFAULT"; dead := true
     end else begin
-      let d = 1 - side in                          (* a read on side s consumes direction other->s *)
-      match recv1 st.(d) (nat_of_int n) with
-      | Ok (s', data) -> st.(d) <- s';
+      match drecv !d client (nat_of_int n) with
+      | Ok (d', data) -> d := d';
         Buffer.add_string out (Printf.sprintf "r%d:%08x" (List.length data) (fnv data))
       | Err -> Buffer.add_string out "rERR"
       | Fault -> Buffer.add_string out "rFAULT"
     end;
+    let c = !d.c2s and s = !d.s2c in
     Buffer.add_string out (Printf.sprintf "@%d.%d.%d.%d"
-      (base + int_of_nat st.(0).sseq) (base + int_of_nat st.(1).rseq)
-      (base + int_of_nat st.(0).rseq) (base + int_of_nat st.(1).sseq))) steps;
-  let w d = if wire.(d) = [] then "-" else String.concat "+" (List.map (fun l -> Printf.sprintf "23:%d" l) wire.(d)) in
+      (base + int_of_nat c.sseq) (base + int_of_nat s.rseq)
+      (base + int_of_nat c.rseq) (base + int_of_nat s.sseq))) steps;
+  let w k = if wire.(k) = [] then "-" else String.concat "+" (List.map (fun l -> Printf.sprintf "23:%d" l) wire.(k)) in
+  let c = !d.c2s and s = !d.s2c in
   if !dead then "FAULT"
   else Printf.sprintf "xfer=%s wire=%s/%s nrec=%d:%d/%d:%d" (Buffer.contents out) (w 0) (w 1)
-      (int_of_nat st.(0).sseq) (int_of_nat st.(0).rseq) (int_of_nat st.(1).sseq) (int_of_nat st.(1).rseq)
+      (int_of_nat c.sseq) (int_of_nat c.rseq) (int_of_nat s.sseq) (int_of_nat s.rseq)
 
 let handle ws = match ws with
   | ["obs12"; pms; plain; cfin; sfin] ->
